@@ -188,10 +188,10 @@ func init() {
 func fmtSite(s string) string { return fmt.Sprintf("%s", s) }
 
 // portfolio re-decides a query the primary solver gave up on: the whole path
-// condition plus extra is handed to fresh z3 5.1.0 and cvc5 processes with a
-// longer limit. Any definite answer is accepted.
+// condition plus extra is handed to fresh cvc5, z3 4.8.12 and z3 5.1.0
+// processes with a longer limit. Any definite answer is accepted.
 func (in *Interp) portfolio(extra *smt.Term) (smt.Result, map[string]uint64) {
-	for _, kind := range []string{"z3-new", "cvc5", "z3"} {
+	for _, kind := range []string{"cvc5", "z3", "z3-new"} {
 		s, err := smt.NewSolver(kind, in.ctx, 6*in.eng.TimeoutMs)
 		if err != nil {
 			continue
